@@ -1,6 +1,7 @@
 //! Per-property monitors. The table-driven properties use the generic sweep; the others
 //! have a module of their own.
 
+pub mod c15;
 pub mod catalogue;
 pub mod poly;
 pub mod quire;
@@ -63,6 +64,7 @@ pub fn run(ctx: &Ctx, reg: &Registry, rep: &mut Report) {
             }
         }
         "C19" => rngmon::run(ctx, reg, rep),
+        "C15" => c15::run(ctx, rep),
         "C18" => poly::run(ctx, rep),
         "C12" => {
             let (exh, samples) = if ctx.quick() { (16.0, 1 << 24) } else { (32.0, 1 << 28) };
